@@ -8,7 +8,8 @@ RUSTC = "rustc/cargo: the harness build of /repo behaves like its source"
 PROPS = {}
 
 
-def prop(pid, thm_modules, lanes, rule, assumptions, trusted_extra=(), expected_theorems=None):
+def prop(pid, thm_modules, lanes, rule, assumptions, trusted_extra=(), expected_theorems=None,
+         level_text="", level_note="", technique="", design_ref="", claimed=True):
     PROPS[pid] = {
         "thm_modules": thm_modules,
         "lanes": lanes,
@@ -16,6 +17,11 @@ def prop(pid, thm_modules, lanes, rule, assumptions, trusted_extra=(), expected_
         "assumptions": list(assumptions),
         "trusted_base": [KERNEL, TRANSLATORS, LANES, RUSTC] + list(trusted_extra),
         "expected_theorems": expected_theorems,
+        "level_text": level_text,
+        "level_note": level_note,
+        "technique": technique,
+        "design_ref": design_ref,
+        "claimed": claimed,
     }
 
 
@@ -26,4 +32,37 @@ prop(
     [{"lane": "echo", "n_quick": 50, "n_thorough": 500}],
     "hex round trip self-test",
     ["none"],
+    claimed=False,
 )
+
+LEX_RULE = ("lane lex: documents from a grammar over an adversarial fragment alphabet (gen/lex.py: all tokenizer constructs, "
+            "truncated constructs, text-mode elements, select/template/frameset, foreign content with integration points, odd "
+            "attribute syntax, random bytes) x random cut sets (none / byte-wise / 1 / 2 / k cuts / repeated cuts = empty writes) x "
+            "strict on/off x capture-flag schedules indexed by tag-event number (incl. attribute-info requests); a case is "
+            "non-trivial when it reaches at least one tag/comment/doctype event; distinct = distinct case line")
+MODEL_SCOPE = ("modelled by hand and tied by the lex lane (not verified against the Rust text): DSL macro semantics "
+               "(state_machine/mod.rs, syntax_dsl/**), lexer and tag-scanner actions, tree-builder simulator, parser loop, "
+               "dispatcher, transform stream, HtmlRewriter poisoning (lean/LolHtml/Model/{SM,TreeSim,Dispatcher,Stream}.lean); "
+               "translated from the Rust text on every run: the tokenizer table, character classes, sequence literals, tag lists and hashes")
+
+prop(
+    "C01",
+    ["LolHtml.Thm.C01"],
+    [{"lane": "lex", "n_quick": 4000, "n_thorough": 200000}],
+    LEX_RULE,
+    ["observing controller = tokens serialise to their raw bytes (the property's own round-trip exception for captured text), emission never disabled, nothing appended at document end",
+     "runs that reach one of the model's explicit panic branches (Rust debug assertions / clamped slices) are not successful runs; their unreachability is C15's subject",
+     MODEL_SCOPE],
+    level_text=("Lean 4 theorem C01_passthrough: for EVERY tokenizer table, tag configuration, settings, observing controller "
+                "(arbitrary capture-flag decision at every tag, i.e. arbitrary scanner/lexer switching), byte string and split into "
+                "writes (empty writes included): if all calls succeed the sink bytes equal the bytes written; plus the per-write "
+                "invariant sink ++ retained = written. Proved by a generic sink-preservation theorem over the DSL interpreter "
+                "(Lemmas/Preserve) and a dispatcher tiling invariant (Lemmas/Tiling). The model is tied to the code by the lex "
+                "correspondence lane (model vs real TransformStream on generated cases) and the direct oracle sink == input."),
+    level_note=("Trusted: Lean kernel (axioms propext, Quot.sound only), the hand-written model of the dispatcher/parser glue "
+                "(checked by the lex lane, not proved equal to the Rust), the DSL/tag translators. Not covered: decode/encode "
+                "round-trip of captured text (hypothesis), non-observing handlers (C07)."),
+    technique="Lean 4 proof (invariant + generic preservation over the interpreter) + model/implementation correspondence lane",
+    design_ref="DESIGN.md section 4 C01",
+)
+
